@@ -554,7 +554,10 @@ class File(resource.Resource, filepath.FilePath[str]):
             request.setHeader(
                 b"content-range", networkString("bytes */%d" % (self.getFileSize(),))
             )
-            return [], b""
+            # One empty "part": the producer then writes nothing and finishes
+            # (an empty list, or the 2-tuple returned before, makes
+            # MultipleRangeStaticProducer.start() raise).
+            return [(b"", 0, 0)]
         finalBoundary = b"\r\n--" + boundary + b"--\r\n"
         rangeInfo.append((finalBoundary, 0, 0))
         request.setResponseCode(http.PARTIAL_CONTENT)
